@@ -350,6 +350,14 @@ pub fn long_two_branch_spec(seed: u64) -> SeqSpec {
     SeqSpec { n: w.iter().sum::<u64>() as usize, alpha: Alpha::Dense(w.len()), dist: Dist::Exact(w), layout: Layout::Iid, seed }
 }
 
+/// the input per arity whose longest code is exactly 32 bits: the deepest code the structures
+/// support (16 quad levels, n = 1.3 M; 32 binary levels, n = 9.2 M)
+pub fn deepest_supported_spec(arity: usize, seed: u64) -> SeqSpec {
+    let levels = if arity == 4 { 16 } else { 32 };
+    let w = deep_code_weights(arity, levels);
+    SeqSpec { n: w.iter().sum::<u64>() as usize, alpha: Alpha::Dense(w.len()), dist: Dist::Exact(w), layout: Layout::Iid, seed }
+}
+
 /// the one input per arity whose longest code exceeds 32 bits (known finding D4)
 pub fn over32_spec(arity: usize, seed: u64) -> SeqSpec {
     let levels = if arity == 4 { 17 } else { 33 };
